@@ -101,7 +101,7 @@ fn derive_sparse(r: &mut Rng, d: &Model) -> Model {
                 let y = *r.pick(&vs);
                 h = h.induced(|v| v != y);
             }
-            let mut fresh = vs.iter().max().unwrap() + 1 + r.below(3);
+            let mut fresh = vs.iter().max().unwrap().wrapping_add(1 + r.below(3));
             if r.chance(0.5) {
                 // an id in a gap of V(D)
                 if let Some(g) = (0..*vs.iter().max().unwrap()).find(|g| !d.verts.contains(g)) {
@@ -137,7 +137,7 @@ fn derive_sparse(r: &mut Rng, d: &Model) -> Model {
         }
         2 => {
             let mut h = d.clone();
-            h.verts.insert(vs.iter().max().unwrap() + 1 + r.below(3));
+            h.verts.insert(vs.iter().max().unwrap().wrapping_add(1 + r.below(3)));
             h
         }
         _ => d.clone(),
@@ -200,6 +200,10 @@ pub fn case(idx: u64, seed: u64, p: &Params, o: &mut CaseOut) {
         }
         2 => {
             md = gen::sparsify(&mut r, &md);
+            if r.chance(0.12) {
+                md = gen::with_max_id(&md);
+                o.bump("vertex_id_usize::MAX");
+            }
             mh = derive_sparse(&mut r, &md);
             let (d, h) = (build_map_any(&md), build_map_any(&mh));
             preds(&d, &md, o, name);
